@@ -3,6 +3,7 @@ package actionlint
 import (
 	"encoding/json"
 	"fmt"
+	"sort"
 	"strconv"
 	"strings"
 )
@@ -822,7 +823,14 @@ func (sema *ExprSemanticsChecker) checkBuiltinFuncCall(n *FuncCallNode, sig *Fun
 			delete(holders, i) // forget it to check unused placeholders
 		}
 
+		// Report remaining placeholders in ascending order. They are at the same position so their
+		// order in the output would depend on map iteration order otherwise.
+		rest := make([]int, 0, len(holders))
 		for i := range holders {
+			rest = append(rest, i)
+		}
+		sort.Ints(rest)
+		for _, i := range rest {
 			sema.errorf(n, "format string %q contains placeholder {%d} but only %d arguments are given to format", lit.Value, i, l)
 		}
 	case "fromjson":
